@@ -31,6 +31,7 @@ import (
 	"github.com/palomachain/paloma/v2/util/libcons"
 	consensustypes "github.com/palomachain/paloma/v2/x/consensus/types"
 	evmtypes "github.com/palomachain/paloma/v2/x/evm/types"
+	"github.com/palomachain/paloma/v2/x/skyway"
 	skywaytypes "github.com/palomachain/paloma/v2/x/skyway/types"
 	valsettypes "github.com/palomachain/paloma/v2/x/valset/types"
 	"verifharness/drv"
@@ -41,16 +42,26 @@ import (
 // (flattened into the field list), and pseudo-fields "@x" for values that reach the digest function
 // as arguments rather than as fields.
 type item struct {
-	obj  any
-	anys map[string]any
-	args map[string]any
+	obj   any
+	anys  map[string]any
+	args  map[string]any
+	after *prefixState // C11: history that happened before the item is submitted (nil: fresh world)
 }
 
 // pairResult is what running the real pooling code on two items gave.
 type pairResult struct {
 	da, db  []byte
 	differs bool
+	subs    []any // C11: every submission (who, accepted, and per attestation carrying its vote the fields in which the stored body differs from it)
 	atts    []any // C11: every attestation found in the store afterwards (key, key recomputed from the stored body, votes, fields in which a voter's submission differs from the stored body)
+}
+
+// redeployDef: c0 is the claim observed before the re-deployment; after it the pair (a, b) reuses c0's nonce: a = base with
+// the values `a`, b = a with the second values of the obligation's fields (`alt` overrides those that would coincide).
+type redeployDef struct {
+	c0  func() *item
+	a   map[string]any
+	alt map[string]any
 }
 
 // cand is one crafted pair of items with a description of the exact inputs.
@@ -78,6 +89,8 @@ type kindDef struct {
 	// class: crafted pairs for a value class of one field (mode -> field -> candidates): values that differ only in
 	// letter case / surrounding whitespace (strings), only after byte 20 / only in the first 12 bytes / shorter than 20 (bytes32)
 	class map[string]map[string]func() []cand
+	// redeploy: the history prefix "claim c0 observed at nonce 1, bridge re-deployed" (C11)
+	redeploy *redeployDef
 }
 
 var (
@@ -483,53 +496,173 @@ func bodyKey(c skywaytypes.EthereumClaim) ([]byte, error) {
 	return append([]byte(c.GetChainReferenceId()), skywaytypes.GetAttestationKey(c.GetSkywayNonce(), h)...), nil
 }
 
-// observeAtts lists every attestation in the raw module store: its key, the key recomputed from the STORED body, the
-// number of votes, and the fields in which the submission of any recorded voter differs from the stored body.
-func observeAtts(ctx sdk.Context, e *env.E1, subs []*submission) ([]any, error) {
-	res := []any{}
-	for _, k := range sortedKeys(attKeys(ctx, e)) {
+// storedAtts reads every attestation out of the raw module store.
+func storedAtts(ctx sdk.Context, e *env.E1) (map[string]*skywaytypes.Attestation, error) {
+	res := map[string]*skywaytypes.Attestation{}
+	for k := range attKeys(ctx, e) {
 		var att skywaytypes.Attestation
 		if err := e.Cdc.Unmarshal(ctx.KVStore(e.Keys[skywaytypes.StoreKey]).Get([]byte(k)), &att); err != nil {
 			return nil, err
 		}
-		body, err := e.Skyway.UnpackAttestationClaim(&att)
-		if err != nil {
-			return nil, err
-		}
-		bk, err := bodyKey(body)
-		if err != nil {
-			return nil, err
-		}
-		diff := map[string]bool{}
-		unknown := 0
-		for _, vote := range att.Votes {
-			found := false
-			for _, s := range subs {
-				if s.val.Val.String() == vote {
-					found = true
-					for _, f := range diffFields(body, s.submitted) {
-						diff[f] = true
-					}
-				}
-			}
-			if !found {
-				unknown++
-			}
-		}
-		res = append(res, map[string]any{"key": hex.EncodeToString([]byte(k)), "body_key": hex.EncodeToString(bk), "votes": len(att.Votes),
-			"unknown_voters": unknown, "diff": sortedKeys(diff)})
+		res[k] = &att
 	}
 	return res, nil
 }
 
+func hasVote(att *skywaytypes.Attestation, v env.Val) bool {
+	for _, x := range att.Votes {
+		if x == v.Val.String() {
+			return true
+		}
+	}
+	return false
+}
+
+// newHome returns the key of the attestation on which v's vote appeared between two snapshots of the store.
+func newHome(before, after map[string]*skywaytypes.Attestation, v env.Val) []byte {
+	for _, k := range sortedKeys(after) {
+		if hasVote(after[k], v) && (before[k] == nil || !hasVote(before[k], v)) {
+			return []byte(k)
+		}
+	}
+	return nil
+}
+
+// observeAtts lists every attestation in the raw module store: its key, the key recomputed from the STORED body, the
+// number of votes and, per recorded voter, the fields in which each of that voter's submissions differs from the stored
+// body; and per submission, the same for every attestation that carries the submitter's vote.
+func observeAtts(ctx sdk.Context, e *env.E1, subs []*submission) (atts []any, subsOut []any, err error) {
+	atts, subsOut = []any{}, []any{}
+	stored, err := storedAtts(ctx, e)
+	if err != nil {
+		return nil, nil, err
+	}
+	bodies := map[string]skywaytypes.EthereumClaim{}
+	for _, k := range sortedKeys(stored) {
+		att := stored[k]
+		body, err := e.Skyway.UnpackAttestationClaim(att)
+		if err != nil {
+			return nil, nil, err
+		}
+		bodies[k] = body
+		bk, err := bodyKey(body)
+		if err != nil {
+			return nil, nil, err
+		}
+		voters := []any{}
+		unknown := 0
+		for _, vote := range att.Votes {
+			ds := []any{}
+			for _, s := range subs {
+				if s.val.Val.String() == vote {
+					ds = append(ds, diffFields(body, s.submitted))
+				}
+			}
+			if len(ds) == 0 {
+				unknown++
+			}
+			voters = append(voters, ds)
+		}
+		atts = append(atts, map[string]any{"key": hex.EncodeToString([]byte(k)), "body_key": hex.EncodeToString(bk), "votes": len(att.Votes),
+			"unknown_voters": unknown, "observed": att.Observed, "voters": voters})
+	}
+	for _, s := range subs {
+		homes := []any{}
+		for _, k := range sortedKeys(stored) {
+			if hasVote(stored[k], s.val) {
+				homes = append(homes, diffFields(bodies[k], s.submitted))
+			}
+		}
+		r := s.refused
+		if len(r) > 80 {
+			r = r[:80]
+		}
+		subsOut = append(subsOut, map[string]any{"who": s.val.Idx, "accepted": s.refused == "", "refused": r, "homes": homes})
+	}
+	return atts, subsOut, nil
+}
+
+// prefixState is a prepared branch of the world: history that happened before the two claims of an obligation.
+type prefixState struct {
+	ctx  sdk.Context
+	subs []*submission
+	err  error
+}
+
+var prefixes = map[string]*prefixState{}
+
+// redeployPrefix: every validator reports claim c0 at nonce 1 under the deployment the environment was set up with, the
+// real end blocker observes it, and the bridge is re-deployed (evm.ActivateChainReferenceID with a new unique id: skyway
+// resets its nonces; the observed attestation stays in the store).
+func redeployPrefix(name string, c0 func() *item) *prefixState {
+	if p, ok := prefixes[name]; ok {
+		return p
+	}
+	e := world()
+	p := &prefixState{}
+	prefixes[name] = p
+	ctx, _ := e.Ctx.CacheContext()
+	ctx = ctx.WithBlockHeight(1001)
+	p.ctx = ctx
+	for _, v := range e.Vals {
+		s, err := submitClaim(ctx, e, c0(), v)
+		if err != nil {
+			p.err = err
+			return p
+		}
+		if s.refused != "" {
+			p.err = fmt.Errorf("prefix claim refused: %s", s.refused)
+			return p
+		}
+		p.subs = append(p.subs, s)
+	}
+	skyway.EndBlocker(ctx, e.Skyway, libcons.New(e.Valset.GetCurrentSnapshot, e.Cdc))
+	stored, err := storedAtts(ctx, e)
+	if err != nil {
+		p.err = err
+		return p
+	}
+	observed := 0
+	for _, a := range stored {
+		if a.Observed {
+			observed++
+		}
+	}
+	if observed != 1 {
+		p.err = fmt.Errorf("prefix: %d observed attestations after the end blocker, want 1", observed)
+		return p
+	}
+	if err := e.Evm.ActivateChainReferenceID(ctx, "eth-a", &evmtypes.SmartContract{Id: 2}, "0x00000000000000000000000000000000c0de0002", []byte(tsB)); err != nil {
+		p.err = err
+		return p
+	}
+	if got := e.Skyway.GetLatestCompassID(ctx, "eth-a"); got != tsB {
+		p.err = fmt.Errorf("prefix: latest compass id %q after re-deployment", got)
+		return p
+	}
+	if n, err := e.Skyway.GetLastObservedSkywayNonce(ctx, "eth-a"); err != nil || n != 0 {
+		p.err = fmt.Errorf("prefix: last observed nonce %d (%v) after re-deployment, want 0", n, err)
+	}
+	return p
+}
+
 // claimOrder lets validator 0 submit x and then validator 1 submit y (ValidateBasic + the REAL msg server, one fresh
-// branch of the prepared world) and reads back, from the raw module store, the attestations that now exist.
-// The claims were pooled iff one attestation carries both votes.  A claim refused by ValidateBasic never reaches the
+// branch of the prepared world, or of the world after a history prefix) and reads back, from the raw module store, the
+// attestations that now exist.  The home of a submission is the attestation on which its vote appeared.  Two accepted
+// claims are kept apart iff both have a home and the homes differ.  A claim refused by ValidateBasic never reaches the
 // state (kept apart); a claim refused later counts as kept apart unless the key it would have been filed under is the
-// key of the other claim's attestation.
+// other claim's home.
 func claimOrder(x, y *item) (*pairResult, error) {
 	e := world()
-	ctx, _ := e.Ctx.CacheContext()
+	base := e.Ctx
+	var prior []*submission
+	if x.after != nil {
+		if x.after.err != nil {
+			return nil, fmt.Errorf("history prefix: %w", x.after.err)
+		}
+		base, prior = x.after.ctx, x.after.subs
+	}
+	ctx, _ := base.CacheContext()
 	clone := func(it *item) (*item, error) {
 		m, err := cloneMsg(it.obj.(gogoproto.Message))
 		if err != nil {
@@ -545,53 +678,58 @@ func claimOrder(x, y *item) (*pairResult, error) {
 	if err != nil {
 		return nil, err
 	}
+	s0, err := storedAtts(ctx, e)
+	if err != nil {
+		return nil, err
+	}
 	sx, err := submitClaim(ctx, e, cx, e.Vals[0])
 	if err != nil {
 		return nil, fmt.Errorf("submit first claim: %w", err)
+	}
+	s1, err := storedAtts(ctx, e)
+	if err != nil {
+		return nil, err
 	}
 	sy, err := submitClaim(ctx, e, cy, e.Vals[1])
 	if err != nil {
 		return nil, fmt.Errorf("submit second claim: %w", err)
 	}
-	if sx.key == nil && sy.key == nil {
-		return nil, fmt.Errorf("neither claim created an attestation: %q / %q", sx.refused, sy.refused)
-	}
-	atts, err := observeAtts(ctx, e, []*submission{sx, sy})
+	s2, err := storedAtts(ctx, e)
 	if err != nil {
 		return nil, err
 	}
-	r := &pairResult{da: sx.key, db: sy.key, atts: atts}
-	if sx.key != nil && sy.key != nil {
-		r.differs = !bytes.Equal(sx.key, sy.key)
-		return r, nil
+	if sx.refused != "" && sy.refused != "" {
+		return nil, fmt.Errorf("neither claim was accepted: %q / %q", sx.refused, sy.refused)
 	}
-	// one attestation only: pooled, or one claim was refused
-	has, lacks := sx, sy
-	if sx.key == nil {
-		has, lacks = sy, sx
-	}
-	would, err := bodyKey(lacks.submitted.(skywaytypes.EthereumClaim))
+	hx, hy := newHome(s0, s1, sx.val), newHome(s1, s2, sy.val)
+	atts, subs, err := observeAtts(ctx, e, append(append([]*submission{}, prior...), sx, sy))
 	if err != nil {
 		return nil, err
 	}
-	if sx.key == nil {
-		r.da = would
-	} else {
-		r.db = would
-	}
-	pooled := false
-	for _, a := range atts {
-		if a.(map[string]any)["votes"].(int) >= 2 {
-			pooled = true
+	r := &pairResult{da: hx, db: hy, atts: atts, subs: subs}
+	would := func(s *submission) []byte {
+		k, err := bodyKey(s.submitted.(skywaytypes.EthereumClaim))
+		if err != nil {
+			return nil
 		}
+		return k
 	}
 	switch {
-	case pooled:
-		r.differs = false
-	case strings.HasPrefix(lacks.refused, "ValidateBasic:"):
-		r.differs = true
+	case sx.refused == "" && sy.refused == "":
+		r.differs = hx != nil && hy != nil && !bytes.Equal(hx, hy)
+	case sx.refused != "":
+		r.da = would(sx)
+		r.differs = strings.HasPrefix(sx.refused, "ValidateBasic:") || (hy != nil && !bytes.Equal(r.da, hy))
 	default:
-		r.differs = !bytes.Equal(would, has.key)
+		r.db = would(sy)
+		r.differs = strings.HasPrefix(sy.refused, "ValidateBasic:") || (hx != nil && !bytes.Equal(r.db, hx))
+	}
+	// a vote that appeared nowhere: show the key it should have been filed under
+	if r.da == nil {
+		r.da = would(sx)
+	}
+	if r.db == nil {
+		r.db = would(sy)
 	}
 	return r, nil
 }
@@ -603,11 +741,12 @@ func claimPair(a, b *item) (*pairResult, error) {
 	if err != nil {
 		return nil, err
 	}
+	b.after = a.after
 	r2, err := claimOrder(b, a)
 	if err != nil {
 		return nil, fmt.Errorf("reverse order: %w", err)
 	}
-	r := &pairResult{da: r1.da, db: r1.db, differs: r1.differs && r2.differs, atts: append(r1.atts, r2.atts...)}
+	r := &pairResult{da: r1.da, db: r1.db, differs: r1.differs && r2.differs, atts: append(r1.atts, r2.atts...), subs: append(r1.subs, r2.subs...)}
 	if r1.differs && !r2.differs {
 		r.da, r.db = r2.db, r2.da
 	}
@@ -801,6 +940,25 @@ func kindsC11() []*kindDef {
 	}
 	for _, k := range ks {
 		k.class = textClasses(k.base, letterful[k.name])
+	}
+	for _, k := range ks {
+		k := k
+		if k.name == "MsgBatchSendToEthClaim" {
+			continue // the legacy claim carries no compass id and is never tallied once a deployment id is recorded
+		}
+		k.redeploy = &redeployDef{
+			c0: func() *item {
+				it := k.base()
+				for f, v := range map[string]any{"skyway_nonce": uint64(1), "event_nonce": uint64(1)} {
+					if err := setPath(it.obj, f, v, nil); err != nil {
+						panic(err)
+					}
+				}
+				return it
+			},
+			a:   map[string]any{"skyway_nonce": uint64(1), "event_nonce": uint64(1), "compass_id": tsB, "eth_block_height": uint64(19000250)},
+			alt: map[string]any{"skyway_nonce": uint64(2), "compass_id": tsA},
+		}
 	}
 	for _, k := range ks {
 		switch k.name {
